@@ -261,7 +261,8 @@ public:
         {
             destruct_pixels(_view);
             create_view(dims, std::integral_constant<bool, IsPlanar>());
-            default_construct_pixels(_view);
+            // if an element constructor throws, the image must not claim (and later destroy) unconstructed pixels
+            try { default_construct_pixels(_view); } catch (...) { _view = view_t(); throw; }
         }
         else
         {
@@ -286,7 +287,8 @@ public:
         {
             destruct_pixels(_view);
             create_view(dims, typename std::integral_constant<bool, IsPlanar>());
-            uninitialized_fill_pixels(_view, p_in);
+            // if an element constructor throws, the image must not claim (and later destroy) unconstructed pixels
+            try { uninitialized_fill_pixels(_view, p_in); } catch (...) { _view = view_t(); throw; }
         }
         else
         {
@@ -312,7 +314,8 @@ public:
         {
             destruct_pixels(_view);
             create_view(dims, std::integral_constant<bool, IsPlanar>());
-            default_construct_pixels(_view);
+            // if an element constructor throws, the image must not claim (and later destroy) unconstructed pixels
+            try { default_construct_pixels(_view); } catch (...) { _view = view_t(); throw; }
         }
         else
         {
@@ -337,7 +340,8 @@ public:
         {
             destruct_pixels(_view);
             create_view(dims, std::integral_constant<bool, IsPlanar>());
-            uninitialized_fill_pixels(_view, p_in);
+            // if an element constructor throws, the image must not claim (and later destroy) unconstructed pixels
+            try { uninitialized_fill_pixels(_view, p_in); } catch (...) { _view = view_t(); throw; }
         }
         else
         {
@@ -369,7 +373,7 @@ private:
             allocate_(dimensions, std::integral_constant<bool, IsPlanar>());
             default_construct_pixels(_view);
         }
-        catch (...) { deallocate(); throw; }
+        catch (...) { _view = view_t(); deallocate(); throw; } // no pixels are left constructed
     }
 
     void allocate_and_fill(point_t const& dimensions, Pixel const& p_in)
@@ -379,7 +383,7 @@ private:
             allocate_(dimensions, std::integral_constant<bool, IsPlanar>());
             uninitialized_fill_pixels(_view, p_in);
         }
-        catch(...) { deallocate(); throw; }
+        catch(...) { _view = view_t(); deallocate(); throw; } // no pixels are left constructed
     }
 
     template <typename View>
@@ -390,7 +394,7 @@ private:
             allocate_(dimensions, std::integral_constant<bool, IsPlanar>());
             uninitialized_copy_pixels(v, _view);
         }
-        catch(...) { deallocate(); throw; }
+        catch(...) { _view = view_t(); deallocate(); throw; } // no pixels are left constructed
     }
 
     void deallocate()
